@@ -39,7 +39,8 @@ TNew == /\ HasLine("new")
         /\ Consume
 
 TCall == /\ HasLine("call")
-         /\ CASE L.api \in {"send", "event", "events_item", "allowed_item", "bound"} -> ExtCall(L.i, L.ev, L.gv)
+         /\ CASE L.api \in {"send", "event", "events_item", "allowed_item", "bound", "mixin_bound"}
+                                        -> ExtCall(L.i, L.ev, L.gv)
               [] L.api = "activate"     -> Activate(L.i, L.gv)
               [] L.api = "write_setter" -> WriteSetter(L.i, L.v)
               [] L.api = "write_model"  -> WriteModel(L.i, L.v)
